@@ -784,6 +784,8 @@ def builtin (fn : String) (args : List Val) : Option (M Val) :=
   | "len", [.list l] => some (M.pure (.int (.lit l.length)))
   | "len", [.dict ks _] => some (M.pure (.int (.lit ks.length)))
   | "len", [.str s] => some (M.pure (.int (.lit s.length)))
+  -- `float("inf")`: a reserved num atom, whose valuation is +∞ (drivers) / bounds every price (theorems)
+  | "float", [.str "inf"] => some (M.pure (.num (.atom 1000000)))
   | "float", [v] => some (match asNum v with | some x => M.pure (.num x) | Option.none => M.fail (.raise "TypeError"))
   | "int", [.int i] => some (M.pure (.int i))
   | "int", [.bool b] => some (M.pure (.int (ITerm.mkOfBool b)))
